@@ -87,7 +87,17 @@ class Inliner:
         self.envs = {}           # id(stmt) -> env in force *before* the statement
         self._walk(func_node.body, {})
 
+    MAX_NODES = 80
+
     def _bind(self, env, target, value):
+        if value is not OPAQUE and isinstance(value, ast.AST):
+            cnt = 0
+            for _ in ast.walk(value):
+                cnt += 1
+                if cnt > self.MAX_NODES:
+                    break
+            if cnt > self.MAX_NODES:
+                value = OPAQUE     # too large to inline: keep the name
         if isinstance(target, ast.Name):
             env[target.id] = value
         elif isinstance(target, (ast.Tuple, ast.List)):
